@@ -234,6 +234,23 @@ ADDED3 = {
 }
 
 
+ADDED4 = {
+ 'C01': ('; abstract end-of-input scenario followed past the loop (hv/eofscan.py)', ' Round 4: at end of input inside the request head the header loop ends in an error (a truncated head is never taken for a complete one).'),
+ 'C02': ('', ' Round 4: the ordering closure of Headers::iter does not look at the header value (same-named fields keep arrival order); only the last listed X-Forwarded-For address is taken off the forwarded list.'),
+ 'C03': ('', ' Round 4: no per-token allocation sized by what is left of the input (size_hint / count of the input cursor inside the parser\'s recursion); the end-of-input scenario models iterator predicates over an empty buffer (all / any / first ..).'),
+ 'C08': ('', ' Round 4: a worker is joined from stop / drop only after the task channel was closed on every path; every start() gives its workers and recovery thread a freshly allocated thread vector.'),
+ 'C09': ('; abstract end-of-input scenario followed past the loop (hv/eofscan.py)', ' Round 4: when the upstream closes inside the response head the header loop ends in an error (no 200 with half a head).'),
+ 'C11': ('', ' Round 4: the blocking frame reader is reached only after a data fragment was collected (a Ping / Pong does not switch the non-blocking reader to blocking); the keep-alive timeout is cleared between the timed request read and the WebSocket handler; every read of the blocking decoder is an exact read.'),
+ 'C12': ('', ' Round 4: the blocking frame reader is reached only mid-message (the poll loop is never parked on one client after a control frame).'),
+ 'C13': ('; R-SCANNER (hv/charauto.py): the DFA of the number gate extracted from its MIR and compared with the RFC 8259 number grammar; character predicates evaluated per constant-delimited interval',
+         ' Round 4: the number gate accepts exactly -?(0|[1-9][0-9]*)(.[0-9]+)?([eE][+-]?[0-9]+)? (language equality with a reference DFA, shortest distinguishing word reported); the token-character predicate contains every literal / number character and none of the characters that may follow a value; no rejection is taken because a length or count is large.'),
+ 'C15': ('', ' Round 4: every line the tree parser takes from its line iterator goes through clean_up (comments are stripped wherever they stand, including the `server {` line).'),
+ 'C17': ('', ' Round 4: create_session reads config.default_lifetime and refresh_session reads config.default_refresh_lifetime, and each builder method stores into the field it is named after.'),
+ 'C19': ('', ' Round 4: the forwarded chain is tested whole (no sub-slice, skip or take between the field and the membership test).'),
+ 'C20': ('', ' Round 4: the accept loop (threaded and tokio) is left only through the shutdown-flag / cancellation edge, whatever accept() reports; the shutdown path never joins a worker thread.'),
+}
+
+
 NOT_APPLICABLE = {
     "C05": "Correctness of the wildcard matcher is a language-equivalence fact about a loop with data-dependent backtracking over all "
            "(pattern, text) pairs; no necessary condition visible in the shape of the code separates the current (wrong on '*aab'/'aaab') "
@@ -256,6 +273,8 @@ def main():
                 tech, text = tech + ADDED2[pid][0], text + ADDED2[pid][1]
             if pid in ADDED3:
                 tech, text = tech + ADDED3[pid][0], text + ADDED3[pid][1]
+            if pid in ADDED4:
+                tech, text = tech + ADDED4[pid][0], text + ADDED4[pid][1]
             checks.append({
                 "property_id": pid,
                 "quick_cmd": f"./check {pid} --tier quick",
@@ -285,7 +304,7 @@ def main():
             {"name": "hv-driver", "path": "driver/", "serves_properties": sorted(CLAIMED),
              "kind_free_text": "rustc_private fact extractor (nightly): MIR with resolved callees, drop-elaborated MIR, HIR trees, items, macro token trees; injected as RUSTC_WORKSPACE_WRAPPER under cargo check; nothing is executed"},
             {"name": "hv", "path": "hv/", "serves_properties": sorted(CLAIMED),
-             "kind_free_text": "Python rule engine over the extracted facts: table agreement, must-pass-through, dominance (check-then-use), backward slicing/taint, who-may-call, panic-site inventory, lock typestate, macro-arm lints, sibling cross-checks, abstract end-of-input scenario of read loops, quasi-linear integer arithmetic decided for every input"},
+             "kind_free_text": "Python rule engine over the extracted facts: table agreement, must-pass-through, dominance (check-then-use), backward slicing/taint, who-may-call, panic-site inventory, lock typestate, macro-arm lints, sibling cross-checks, abstract end-of-input scenario of read loops, quasi-linear integer arithmetic decided for every input, byte / char value-set flow, scanner DFA extraction (finite abstract interpretation of character scanners)"},
         ],
         "checks": checks,
         "not_applicable": na,
